@@ -866,7 +866,8 @@ class SnippetFileStream(Stream):
             "two; 10000, 12288, 24576, 40960, 100000, 196608, 327680, 1000000; multiples 2B, 3B): marker starting 1..16 bytes before the offset "
             "(lying across it) and, as controls, ending or starting exactly at it, or lying wholly behind 70 KB / 300 KB / 1 MiB (thorough: up to "
             "3 MiB); marker line in six comment spellings, LF / CRLF; tags right after the marker, far behind it, between byte 4096 and the "
-            "marker, with or without a notice in the head; files above 140 KiB are judged by the oracle only; (b) files of 8-20 KiB with a snippet marker (at the start, in the middle or at the end): "
+            "marker, with or without a notice in the head; (a'') a tag line itself lying across such an offset, the marker at the start, "
+            "before the tag or at the end of the file; files above 140 KiB are judged by the oracle only; (b) files of 8-20 KiB with a snippet marker (at the start, in the middle or at the end): "
             "tag lines, REUSE-IgnoreStart / REUSE-IgnoreEnd markers and hidden tags placed so that they straddle or directly follow the 4096-byte "
             "boundaries (a tag line cut by a boundary, an ignore block spanning a boundary with a hidden tag right after it, the ignore marker "
             "itself cut by a boundary); oracle = generator ground truth: exactly the tags planted outside ignore blocks are reported; "
@@ -898,6 +899,12 @@ class SnippetFileStream(Stream):
         for off in ([70000, 300000, (1 << 20) + 5000] if tier == "quick" else [5000, 70000, 140000, 300000, 600000, (1 << 20) + 5000, (1 << 21) + 77, 3 << 20]):
             yield {"plan": "straddle", "B": off, "k": 1, "d": -rng.randint(3, 60), "lead": rng.choice(self.LEADS), "head": rng.random() < 0.5,
                    "tags": rng.choice(["after", "far", "before", "both"]), "gap": rng.randint(2, 3000), "eol": "\n"}
+        # (a'') a TAG line lying across such an offset in a file whose marker stands elsewhere (a reader that scans the whole file piece by piece)
+        for B in BOUNDS_POW + BOUNDS_ODD:
+            for k in ((1, 2, 3) if tier == "thorough" else (1,)):
+                for _ in range(4 if tier == "thorough" else 1):
+                    yield {"plan": "tag-straddle", "B": B, "k": k, "r": rng.randint(1, 40), "kind": rng.choice("LC"),
+                           "marker": rng.choice(["start", "end", "before"]), "gap": rng.randint(2, 3000)}
         n = 400 if tier == "thorough" else 60
         for i in range(n):
             nb = rng.randint(2, 4)
@@ -998,6 +1005,22 @@ class SnippetFileStream(Stream):
                 data = data[:at] + data[at:].replace(b"\n", case["eol"].encode())
             assert data.find(SNIPPET.encode()) == at, (data.find(SNIPPET.encode()), at)
             return data, b.lic, b.cpr
+        if case["plan"] == "tag-straddle":
+            at = case["B"] * case["k"] - case["r"]          # the tag line starts r bytes before the offset and ends behind it
+            if case["marker"] == "start":
+                b.line("# " + SNIPPET)
+            b.pad_to(4096 + 2)
+            b.tag("C")
+            if case["marker"] == "before" and at > 4096 + 200:
+                b.line("# " + SNIPPET)
+            b.pad_exact(at) if at >= len(b.buf) else None
+            b.tag(case["kind"])
+            b.tag("L")
+            b.filler(case["gap"])
+            if SNIPPET.encode() not in b.buf:
+                b.line("# " + SNIPPET)
+            b.line("# SPDX-SnippetEnd")
+            return bytes(b.buf), b.lic, b.cpr
         rng = random.Random(case["seed"])
         if case["marker"] == "start":
             b.line("# " + SNIPPET)
@@ -1077,6 +1100,8 @@ class SnippetFileStream(Stream):
             return ("marker-straddle", case["k"], case["d"])
         if case["plan"] == "straddle":
             return ("straddle", case["B"], case["k"], case["d"], case["tags"])
+        if case["plan"] == "tag-straddle":
+            return ("tag-straddle", case["B"], case["k"], case["marker"])
         return (tuple(case["scen"]), case["marker"])
 
     def show(self, case):
